@@ -93,11 +93,12 @@ theorem c15_summary {env : Env K} {ord : Ord}
 
 /-- **Tie to the source.**  Read from src/verifylib.rs on every run: `verify_sublayouts` verifies a
     delegated layout by calling the full entry point `in_toto_verify` (and no other function of the
-    pipeline), and `in_toto_verify` has no early exit besides the "not a layout" rejection - so a
+    pipeline) and hands its failure on, and `in_toto_verify` has no early exit besides the "not a layout" rejection - so a
     sub-layout goes through every stage the top-level layout goes through, which is what the
     recursion of the model `verify` says. -/
 theorem c15_source_sublayouts_go_through_the_full_entry_point :
     Generated.sublayoutCalls = ["in_toto_verify"] ∧ Generated.pipelineReturns.length = 1 ∧
-    Generated.pipelineStages.all (fun s => s.depth == 0) = true := by decide
+    Generated.pipelineStages.all (fun s => s.depth == 0) = true ∧
+    Generated.sublayoutStages.all (fun s => s.propagates) = true := by decide
 
 end InToto.Verify
